@@ -414,6 +414,34 @@ Proof.
   exact (conj (ex_recovery_wf _ (proj1 (ex_hash32_wf 3))) (conj A (conj B (conj default_nested_same_without_sr D)))).
 Qed.
 
+(* ---------- documented per-field bounds: what a decoder accepts is within them ---------- *)
+(* (each is a projection of the type's decode_wf theorem; gathered here because the harness drives a table of these
+   maxima - field at max-1, max, max+1, all bytes present - through the Go decoders and, for these types, the same bytes
+   through the model) *)
+Theorem C17_field_bounds_enforced :
+  (forall bs w rest, bytes_ok bs -> read_witness bs = Some (w, rest) ->
+     Z.of_nat (length (winv w)) <= 1024 /\ Z.of_nat (length (wver w)) <= 1024) /\
+  (forall bs i rest, bytes_ok bs -> read_inventory bs = Some (i, rest) -> Z.of_nat (length (ihashes i)) <= 500) /\
+  (forall bs l rest, bytes_ok bs -> read_mptinv bs = Some (l, rest) -> Z.of_nat (length l) <= 32) /\
+  (forall bs v rest, bytes_ok bs -> read_version bs = Some (v, rest) -> Z.of_nat (length (vagent v)) <= 1024) /\
+  (forall bs l rest, bytes_ok bs -> read_addrlist bs = Some (l, rest) -> (1 <= length l <= 200)%nat) /\
+  (forall sr bs l rest, bytes_ok bs -> read_headers sr bs = Some (l, rest) -> (1 <= length l <= 2000)%nat) /\
+  (forall bs e rest, bytes_ok bs -> read_extensible bs = Some (e, rest) ->
+     Z.of_nat (length (ecategory e)) <= 32 /\ Z.of_nat (length (edata e)) <= max_payload_size) /\
+  (forall bs s rest, bytes_ok bs -> read_signer bs = Some (s, rest) ->
+     Z.of_nat (length (scontracts s)) <= 16 /\ Z.of_nat (length (sgroups s)) <= 16 /\ Z.of_nat (length (srules s)) <= 16).
+Proof.
+  split; [intros bs w rest Hb H; destruct (witness_decode_wf bs w rest Hb H) as ((A & _ & B & _) & _); auto|].
+  split; [intros bs i rest Hb H; destruct (inventory_decode_wf bs i rest Hb H) as ((_ & A & _) & _); exact A|].
+  split; [intros bs l rest Hb H; destruct (mptinv_decode_wf bs l rest Hb H) as ((A & _) & _); exact A|].
+  split; [intros bs v rest Hb H; destruct (version_decode_wf bs v rest Hb H) as ((_ & _ & _ & _ & A & _) & _); exact A|].
+  split; [intros bs l rest Hb H; destruct (addrlist_decode_wf bs l rest Hb H) as ((A & _) & _); exact A|].
+  split; [intros sr bs l rest Hb H; destruct (headers_decode_wf sr bs l rest Hb H) as ((A & _) & _); exact A|].
+  split; [intros bs e rest Hb H; destruct (extensible_decode_wf bs e rest Hb H) as ((A & _ & _ & _ & _ & B & _) & _); auto|].
+  intros bs s rest Hb H. destruct (signer_decode_wf bs s rest Hb H) as ((_ & _ & _ & A & _ & _ & B & _ & _ & C & _) & _). auto.
+Qed.
+Print Assumptions C17_field_bounds_enforced.
+
 (* ---------- non-vacuity ---------- *)
 (* non-vacuity: concrete boundary values, a non-minimal form that is read but never written *)
 Example C17_prim_example :
